@@ -221,6 +221,52 @@ def run(ctx):
         elif parts[1] != parts[2]:
             ctx.disagree('exact model: transport forms differ although %s accepted (contradicts %s)' % (('equivcheck', 'equiv_form_eq') if what == 'equiv' else ('covercheck', 'cover_form_eq')), dict(rep, ans=ans))
     vacancy_part(ctx)
+    vacancy_permute_part(ctx)
+
+
+def vacancy_permute_part(ctx):
+    """The same crystal with the atoms of the vacancy sublattice listed in another order (so that site numbers, the order
+    and the composition by index of the Wyckoff sets change): data given through tags, which name positions, must give the
+    same four tensors."""
+    from onsager import OnsagerCalc, crystal
+    import vacancy_common as vc
+    from props.c07 import user_tags
+    rng = ctx.rng
+    names = ['omegaR', 'twoW', 'hcp'] if ctx.quick else ['omegaR', 'twoW', 'hcp', 'rumpled', 'rect2d-2site', 'honey2d', 'fcc']
+    for name in names:
+        c1, chem, cutoff = vc.crystals()[name]
+        calc1 = vc.calculator(name, 1)
+        n = len(c1.basis[chem])
+        perms = [p for p in itertools.permutations(range(n)) if p != tuple(range(n))] or [tuple(range(n))]
+        for t in range(1 if ctx.quick else 2):
+            perm = rng.choice(perms)
+            key = ('vperm', name, perm)
+            if key not in ic._CACHE:
+                basis = [list(a) for a in c1.basis]; basis[chem] = [c1.basis[chem][k] for k in perm]
+                try:
+                    c2 = crystal.Crystal(c1.lattice, basis, chemistry=c1.chemistry)
+                    ic._CACHE[key] = OnsagerCalc.VacancyMediated(c2, chem, c2.sitelist(chem), c2.jumpnetwork(chem, cutoff), 1, NGFmax=4)
+                except Exception as e:
+                    ctx.violation('redescription-raises:vacancy-permute:%s' % type(e).__name__, 'VacancyMediated raised %r on %s with its atoms listed in the order %s' % (e, name, perm),
+                                  dict(crystal=name, perm=list(perm))); continue
+            calc2 = ic._CACHE[key]
+            ut = user_tags(rng, calc1)
+            rep = dict(crystal=name, perm=list(perm), sitelist1=[list(map(int, s_)) for s_ in calc1.sitelist], sitelist2=[list(map(int, s_)) for s_ in calc2.sitelist],
+                       usertags={k: list(v) for k, v in ut.items()})
+            ctx.case(('vperm', name, perm, t, str(sorted(ut.items()))[:200]), nontrivial=True, sample=dict(crystal=name, perm=list(perm), sitelist2=rep['sitelist2']))
+            ctx.count('vacancy-permute:' + name)
+            try:
+                d1 = calc1.tags2preene(ut); d2 = calc2.tags2preene(ut)
+                L1 = vc.lij(calc1, d1); L2 = vc.lij(calc2, d2)
+            except Exception as e:
+                ctx.violation('redescription-raises:vacancy-permute:%s' % type(e).__name__, 'tags2preene / Lij raised %r on the permuted description of %s' % (e, name), rep); continue
+            sc = max(np.abs(x).max() for x in L1)
+            for a, b, lab in zip(L1, L2, ('L0vv', 'Lss', 'Lsv', 'L1vv')):
+                dev = np.abs(np.asarray(a) - np.asarray(b)).max()
+                if not np.all(np.isfinite(b)) or dev > 1e-8 * sc:
+                    ctx.violation('vacancy-differs:permute:%s' % lab, '%s differs by %.3g (scale %.3g) between %s and the same crystal with its atoms listed in the order %s '
+                                  '(site lists %s / %s), same tag data' % (lab, dev, sc, name, list(perm), rep['sitelist1'], rep['sitelist2']),
+                                  dict(rep, L1=np.asarray(a).tolist(), L2=np.asarray(b).tolist()))
 
 
 def vacancy_part(ctx):
